@@ -4528,17 +4528,13 @@ func (op *op) WriteTo(w io.Writer) (n int64, err error) {
 	}
 	binary.LittleEndian.PutUint32(buf[9:13], h.Sum32())
 
-	// Write to writer.
-	nn, err := w.Write(buf)
-	if err != nil {
-		return int64(nn), err
-	}
+	// Write to writer. The header and the roaring data go out in one write:
+	// the op log cannot be read back if it ends after the header of an op
+	// (which is what a process killed between two writes would leave).
 	if op.typ == 4 || op.typ == 5 {
-		var nn2 int
-		// separate write so we don't have to copy the whole thing
-		nn2, err = w.Write(op.roaring)
-		nn += nn2
+		buf = append(buf, op.roaring...)
 	}
+	nn, err := w.Write(buf)
 	return int64(nn), err
 }
 
